@@ -450,6 +450,19 @@ def w3(proj, rep):
                                     break
                         p = getattr(p, '_parent', None)
                     disp[opt] = (r.node, c)
+                elif isinstance(c.func, ast.Name):
+                    # local alias: hf = A if self.method=='x' else B ; hf(...)
+                    for s2 in ast.walk(fwd.node):
+                        if isinstance(s2, ast.Assign) and len(s2.targets) == 1 and isinstance(s2.targets[0], ast.Name) \
+                                and s2.targets[0].id == c.func.id and isinstance(s2.value, ast.IfExp):
+                            t = s2.value.test
+                            if isinstance(t, ast.Compare) and ast.unparse(t.left) == 'self.method' and isinstance(t.comparators[0], ast.Constant):
+                                ra = proj.resolve_expr(m, s2.value.body)
+                                rb = proj.resolve_expr(m, s2.value.orelse)
+                                if ra.kind == 'func':
+                                    disp[t.comparators[0].value] = (ra.node, c)
+                                if rb.kind == 'func':
+                                    disp[None] = (rb.node, c)
         if len(opts) > 1:
             rest = [o for o in opts if o not in disp]
             if None in disp and len(rest) == 1:
